@@ -1403,13 +1403,13 @@ func testH2(t *testing.T, prop string) {
 	if prop == "C09" {
 		s.Add(explore.Scenario{Name: "flow-quick", Remote: true, Tiers: []string{"quick"}, Run: runBubble(t, func(x *explore.X) { flowScenario(x, q) })})
 		s.Add(explore.Scenario{Name: "flow-quick-deep", Remote: true, Tiers: []string{"quick"}, Run: runBubble(t, func(x *explore.X) { flowScenarioCfg(x, q+1, true) })})
-		s.Add(explore.Scenario{Name: "flow-thorough", Remote: true, Tiers: []string{"thorough"}, Run: runBubble(t, func(x *explore.X) { flowScenario(x, th) })})
 		s.Add(explore.Scenario{Name: "stalled-receiver-quick", Remote: true, Tiers: []string{"quick"}, Run: runBubble(t, func(x *explore.X) { stalledScenario(x, 3) })})
 		s.Add(explore.Scenario{Name: "stalled-receiver-thorough", Remote: true, Tiers: []string{"thorough"}, Run: runBubble(t, func(x *explore.X) { stalledScenario(x, 4) })})
 		s.Add(explore.Scenario{Name: "relay-interleavings", Remote: true, MaxDev: map[string]int{"quick": 1, "thorough": 2}, Run: func(x *explore.X) { schedScenario(t, x) }})
 		s.Add(explore.Scenario{Name: "frame-size-quick", Remote: true, Tiers: []string{"quick"}, Run: runBubble(t, func(x *explore.X) { frameSizeScenario(x, 3) })})
 		s.Add(explore.Scenario{Name: "frame-size-thorough", Remote: true, Tiers: []string{"thorough"}, Run: runBubble(t, func(x *explore.X) { frameSizeScenario(x, 4) })})
 		s.Add(explore.Scenario{Name: "header-block-at-frame-size-limit", Remote: true, Run: runBubble(t, headerBoundary)})
+		s.Add(explore.Scenario{Name: "flow-thorough", Remote: true, Tiers: []string{"thorough"}, Run: runBubble(t, func(x *explore.X) { flowScenario(x, th) })})
 	} else {
 		s.Add(explore.Scenario{Name: "relay-interleavings", Remote: true, MaxDev: map[string]int{"quick": 1, "thorough": 2}, Run: func(x *explore.X) { schedScenario(t, x) }})
 		s.Add(explore.Scenario{Name: "fidelity-quick", Remote: true, Tiers: []string{"quick"}, Run: runBubble(t, func(x *explore.X) { fidelityScenario(x, 3) })})
@@ -1418,12 +1418,12 @@ func testH2(t *testing.T, prop string) {
 		s.Add(explore.Scenario{Name: "stalled-fidelity-thorough", Remote: true, Tiers: []string{"thorough"}, Run: runBubble(t, func(x *explore.X) { stalledFidelity(x, 4) })})
 		s.Add(explore.Scenario{Name: "flow-quick", Remote: true, Tiers: []string{"quick"}, Run: runBubble(t, func(x *explore.X) { flowScenario(x, q) })})
 		s.Add(explore.Scenario{Name: "flow-quick-deep", Remote: true, Tiers: []string{"quick"}, Run: runBubble(t, func(x *explore.X) { flowScenarioCfg(x, q+1, true) })})
-		s.Add(explore.Scenario{Name: "flow-thorough", Remote: true, Tiers: []string{"thorough"}, Run: runBubble(t, func(x *explore.X) { flowScenario(x, th) })})
 		s.Add(explore.Scenario{Name: "frame-size-quick", Remote: true, Tiers: []string{"quick"}, Run: runBubble(t, func(x *explore.X) { frameSizeScenario(x, 3) })})
 		s.Add(explore.Scenario{Name: "frame-size-thorough", Remote: true, Tiers: []string{"thorough"}, Run: runBubble(t, func(x *explore.X) { frameSizeScenario(x, 4) })})
 		s.Add(explore.Scenario{Name: "header-block-at-frame-size-limit", Remote: true, Run: runBubble(t, headerBoundary)})
 		s.Add(explore.Scenario{Name: "stalled-receiver-quick", Remote: true, Tiers: []string{"quick"}, Run: runBubble(t, func(x *explore.X) { stalledScenario(x, 3) })})
 		s.Add(explore.Scenario{Name: "stalled-receiver-thorough", Remote: true, Tiers: []string{"thorough"}, Run: runBubble(t, func(x *explore.X) { stalledScenario(x, 4) })})
+		s.Add(explore.Scenario{Name: "flow-thorough", Remote: true, Tiers: []string{"thorough"}, Run: runBubble(t, func(x *explore.X) { flowScenario(x, th) })})
 	}
 	s.Main()
 }
